@@ -167,7 +167,10 @@ pub fn units(tier: Tier, seed: u64) -> Vec<Unit> {
         u.push(unit!(format!("C06/NET-definition/N={n}/k={k}/sample-path"), net_def(n, k)));
         u.push(unit!(format!("C06/NET-negation/N={n}/k={k}/sample-path"), net_neg(n, k)));
     }
-    for (i, x) in u.iter_mut().enumerate().skip(first) { x.concolic = Some(seed * 31 + 1 + (i as u64 % 2)); x.budget_s = 60.0; x.max_decisions = 60000; }
+    // more than a thousand updates (periodic maintenance, wrapped ring buffers) for the two views whose obligations stay linear
+    u.push(unit!("C06/NET-definition/N=5/k=1040/sample-path", net_def(5usize, 1040usize)));
+    u.push(unit!("C06/CoG-definition/N=5/k=1040/sample-path", cog_def(5usize, 1040usize)));
+    for (i, x) in u.iter_mut().enumerate().skip(first) { x.concolic = Some(seed * 31 + 1 + (i as u64 % 2)); x.budget_s = 60.0; x.max_decisions = 600000; }
     // streams cycling through two or three symbolic values, all comparison outcomes, at larger windows: many exact ties, the largest
     // and smallest value duplicated, constant windows when the values coincide
     let first = u.len();
